@@ -66,7 +66,8 @@ def extreme_cases(tier, seed):
         out.append(mk('beta', ty, [big, big], ('c03',)))
         out.append(mk('beta', ty, [big, 1e-3], ('c03',)))
         out.append(mk('student_t', ty, [big], ('c03',)))
-        out.append(mk('zeta', ty, [1e3 if ty == 'f64' else 30.0], ('c03',)))
+        for s in ([1e3, 1025.0, 2e3, 1e6, 1e300] if ty == 'f64' else [30.0, 129.0, 200.0, 1e6, 1e30]):
+            out.append(mk('zeta', ty, [s], ('c03',)))
         out.append(mk('zipf', ty, [C.BIG[ty], 1.5], ('c03',)))
         out.append(mk('zipf', ty, [1e18 if ty == 'f64' else 1e9, 0.01], ('c03',)))
     return out
